@@ -33,7 +33,7 @@
     'invariants': ['__CPROVER_same_object(ptr, g_data0) && g_base <= (size_t)__CPROVER_POINTER_OFFSET(ptr) && (size_t)__CPROVER_POINTER_OFFSET(ptr) <= g_n',
                    '(g_base <= g_q && g_q < (size_t)__CPROVER_POINTER_OFFSET(ptr)) ==> g_data0[g_q] == delim'],
     'decreases': 'g_n - (size_t)__CPROVER_POINTER_OFFSET(ptr)'},
-   {'file': 'overlay:cxx/igris_string_cxx.c', 'func': 'cxx_split_char', 'loop': 2, 'expect': 'while (ptr != end && *ptr != delim)',
+   {'file': 'overlay:cxx/igris_string_cxx.c', 'func': 'cxx_split_char', 'loop': 2, 'expect': 'while (ptr != end && *ptr != delim',
     'assigns': 'ptr',
     'invariants': ['__CPROVER_same_object(ptr, g_data0) && g_cur <= (size_t)__CPROVER_POINTER_OFFSET(ptr) && (size_t)__CPROVER_POINTER_OFFSET(ptr) <= g_n',
                    '(g_cur <= g_q && g_q < (size_t)__CPROVER_POINTER_OFFSET(ptr)) ==> g_data0[g_q] != delim'],
